@@ -61,7 +61,8 @@ def strat_sources(tier):
 
 def strat_nozzle(tier):
     return gen.model_nozzle(varying=True).flatmap(lambda md: st.builds(
-        lambda cfg, sc, st2: dict(cfg, model=md, scaleA=sc, state2=st2), _config(md, tier), gen.logf(-2, 2), gen.state_euler(False, lnrange=1.0, machmax=1.5, smooth_amp=0.05)))
+        lambda cfg, sc, st2, rest: dict(cfg, model=md, scaleA=sc, state2=(st2 if not rest else dict(st2, mach=dict(k="const", v=0.0)))), _config(md, tier), gen.logf(-2, 2),
+        gen.state_euler(False, lnrange=1.0, machmax=1.5, smooth_amp=0.05), st.sampled_from([False, False, True])))      # second state: a third of the time a gas at rest
 
 
 def _operator(md, case, source, reuse=False):
@@ -250,7 +251,7 @@ def _scaled(sec, c):
 
 SUBCHECKS = [
     SubCheck("sources", check_sources, strategy=strat_sources, examples={"quick": 400, "thorough": 2500}, shards={"quick": 4, "thorough": 16}),
-    SubCheck("nozzle_geometric", check_nozzle, strategy=strat_nozzle, examples={"quick": 300, "thorough": 2000}, shards={"quick": 3, "thorough": 12}),
+    SubCheck("nozzle_geometric", check_nozzle, strategy=strat_nozzle, examples={"quick": 400, "thorough": 2000}, shards={"quick": 3, "thorough": 12}),
 ]
 
 META = dict(
